@@ -10,6 +10,7 @@ permanently failing) - fault enumeration per sampled workload.
 import errno
 import gzip
 import io
+import os
 import contextlib
 
 from ..rng import Streams, weighted
@@ -35,9 +36,9 @@ ASSUMPTIONS = [
 ]
 COMPONENTS = {
     'real': ['bamSplitByTag __main__ driver loop + split_bam_by_tag (re-executed with runpy in a forked child, real BAM files in scratch)', 'singlecellmultiomics.pyutils.handlelimiter.HandleLimiter', 'singlecellmultiomics.fastqProcessing.fastqHandle.FastqHandle(single_cell=True)', 'gzip.GzipFile'],
-    'stub': ['SimPool for the index step of bamSplitByTag (multiprocessing.Pool rebound in the child)', 'SimFS (handlelimiter.gzip / handlelimiter.open): in-memory files, fd budget, transient/permanent open faults', 'SimClock (handlelimiter.time)'],
+    'stub': ['(fidelity cross-check of SimFS: 4% of the cases also run on real gzip files under a real RLIMIT_NOFILE in a forked child)', 'SimPool for the index step of bamSplitByTag (multiprocessing.Pool rebound in the child)', 'SimFS (handlelimiter.gzip / handlelimiter.open): in-memory files, fd budget, transient/permanent open faults', 'SimClock (handlelimiter.time)'],
 }
-REQUIRED_PROBES = ['stale_file_present', 'split_colliding_tag_values', 'split_limit_below_cell_count', 'emfile_recovery', 'prune_closed_then_reopened', 'transient_fault_fired', 'permanent_fault_fired', 'write_raised_legitimately']
+REQUIRED_PROBES = ['real_fd_limit_run', 'stale_file_present', 'split_colliding_tag_values', 'split_limit_below_cell_count', 'emfile_recovery', 'prune_closed_then_reopened', 'transient_fault_fired', 'permanent_fault_fired', 'write_raised_legitimately']
 EXHAUSTIVE_NOTE = 'fault plans are enumerated per sampled write sequence (capped at 48 indices per kind); write sequences are sampled'
 ERRNOS = [errno.EMFILE, errno.ENFILE, errno.EIO]
 
@@ -111,6 +112,9 @@ def generate(seed, tier):
                       'transient': [[f.randint(0, max(0, n_open_bound - 1)), f.choice(ERRNOS)]],
                       'permanent': [f.choice(used_paths)] if f.random() < 0.3 else []})
     case = {'params': params, 'workload': writes, 'fault_plans': plans}
+    if w.random() < 0.04:
+        # fidelity of the SimFS stub: the same sequence on REAL gzip files under a REAL descriptor limit (RLIMIT_NOFILE) in a forked child
+        case['real_fd'] = {'spare': w.choice([1, 2, 3, 5, 8])}
     if w.random() < 0.3:
         # second code path of the property: bamSplitByTag re-scans the input with a cap on simultaneously open BAM handles
         ncell = weighted(w, [(1, 1), (w.randint(2, 6), 5), (w.randint(7, 14), 2)])
@@ -337,6 +341,10 @@ def execute(case):
         nontrivial = bool(fs.fired) or pr.get('prune_closed_then_reopened', 0) > 0
         sigs.append((d[:16], nontrivial))
         clock_ticks += fs.attempts
+    if case.get('real_fd'):
+        v, sg = run_real_fd(case, log, probes)
+        viol.extend(v)
+        sigs.extend(sg)
     n_split = 0
     if case.get('split'):
         v, n_split, sg = run_split(case, log, probes)
@@ -370,6 +378,82 @@ def _split_child(d, bam, k, seed, wfd):
         res['exception'] = f'{type(e).__name__}: {e}'[:300]
     os.write(wfd, json.dumps(res).encode())
     os._exit(0)
+
+
+def _real_fd_child(d, params, writes, spare, wfd):
+    import json
+    import resource
+    import singlecellmultiomics.pyutils.handlelimiter as hl
+    os.chdir(d)
+    dn = os.open(os.devnull, os.O_WRONLY)
+    os.dup2(dn, 1)
+    os.dup2(dn, 2)
+    acked, raised = [], []
+    try:
+        h = hl.HandleLimiter(maxHandles=params['maxHandles'], pruneEvery=params['pruneEvery'], compressionLevel=1)
+        base_fds = len(os.listdir('/proc/self/fd'))
+        resource.setrlimit(resource.RLIMIT_NOFILE, (base_fds + spare, resource.getrlimit(resource.RLIMIT_NOFILE)[1]))
+        for (p, i, ln) in writes:
+            try:
+                h.write(f'p{p}.gz', _payload(i, ln), method=1)
+                acked.append([p, i, ln])
+            except Exception as e:
+                raised.append([p, i, type(e).__name__])
+        h.close()
+    except BaseException as e:
+        raised.append([-1, -1, 'harness:' + repr(e)[:100]])
+    os.write(wfd, json.dumps({'acked': acked, 'raised': raised}).encode())
+    os._exit(0)
+
+
+def run_real_fd(case, log, probes):
+    import json
+    from ..scratch import scratch
+    params, writes = case['params'], [tuple(w) for w in case['workload']]
+    viol, sigs = [], []
+    with scratch() as d:
+        rfd, wfd = os.pipe()
+        pid = os.fork()
+        if pid == 0:
+            os.close(rfd)
+            try:
+                _real_fd_child(d, params, writes, case['real_fd']['spare'], wfd)
+            finally:
+                os._exit(96)
+        os.close(wfd)
+        data = b''
+        while True:
+            b = os.read(rfd, 65536)
+            if not b:
+                break
+            data += b
+        os.close(rfd)
+        os.waitpid(pid, 0)
+        res = json.loads(data.decode()) if data else {'acked': [], 'raised': [[-1, -1, 'child died']]}
+        probes['real_fd_limit_run'] = probes.get('real_fd_limit_run', 0) + 1
+        want = {}
+        for p, i, ln in res['acked']:
+            want.setdefault(f'p{p}.gz', []).append(_payload(i, ln))
+        n_paths = len({p for p, _, _ in writes})
+        if case['real_fd']['spare'] < min(n_paths, params['maxHandles'] + 1):
+            probes['real_fd_limit_below_demand'] = probes.get('real_fd_limit_below_demand', 0) + 1
+        log.add('real-fd', case['real_fd'], len(res['acked']), [r[2] for r in res['raised']])
+        ctx = {'spare_descriptors': case['real_fd']['spare'], 'layer': 'real files + RLIMIT_NOFILE'}
+        for r in res['raised']:
+            # with >= 1 spare descriptor the file can always be opened once the others are closed
+            viol.append({'property': PROPERTY, 'class': 'spurious-raise', 'signature': f'real-fd/{r[2]}', 'detail': {**ctx, 'write': r[1], 'path': r[0]}})
+        for path, payloads in sorted(want.items()):
+            try:
+                with open(os.path.join(d, path), 'rb') as f:
+                    text = gzip.decompress(f.read()).decode()
+            except Exception as e:
+                viol.append({'property': PROPERTY, 'class': 'invalid-gzip', 'signature': 'real-fd/' + type(e).__name__, 'detail': {**ctx, 'path': path}})
+                continue
+            if text != ''.join(payloads):
+                viol.append({'property': PROPERTY, 'class': 'lost-record', 'signature': 'real-fd/content-mismatch',
+                             'detail': {**ctx, 'path': path, 'n_expected': len(payloads), 'n_got': len(_tokens(text) or [])}})
+        sigs.append((log.digest()[:16], True))
+    return viol, sigs
 
 
 def _tagvalue(sp, cell, i):
